@@ -838,7 +838,7 @@ theorem hasLineBreak_clean {v : Str} (h : clean v = true) : hasLineBreak v = fal
 
 theorem noClash_elim {E : Env} {p q : Nat × User} (h : noClash E p q = true) :
     E.lower p.2.name ≠ E.lower q.2.name ∧
-    ∀ hq ∈ q.2.hostmasks, ∀ o ∈ p.2.hostmasks, E.hm o hq = false ∧ E.hm hq o = false := by
+    ∀ hq ∈ q.2.hostmasks, ∀ o ∈ p.2.hostmasks, E.hm o hq = false ∧ E.hmx hq o = false := by
   simp only [noClash, Bool.and_eq_true, bne_iff_ne, ne_eq, List.all_eq_true, Bool.not_eq_true'] at h
   exact ⟨h.1, fun hq hhq o ho => h.2 hq hhq o ho⟩
 
